@@ -747,7 +747,7 @@ def run(ctx: Ctx) -> None:
               "x__onehot_encoded~1", "x__onehot_encoded~", "x__onehot_encoded~a", "x__pca_2d", "x__pca_d", "x__cluster_kmeans_3", "x__mean_imputed__cluster_kmeans_3",
               "x__linear_forecast_7day", "x__linear_forecast_7day__sum_aggr", "x__sklearn_pipeline_a__sum_aggr", "x__cleaned_text", "x__cleaned_text2", "cleaned_text",
               "x__a_b_aggr", "x__1_aggr", "x___aggr", "x___imputed", "x__sum_07_day_window", "x__sum_0_day_window", "x__sum_-1_day_window", "x__sum_7_day_window_",
-              "x&__sum_aggr", "&x__sum_aggr", "x&&y__euclidean_distance", "x, y__sum_aggr"]  # fmt: skip
+              "x&__sum_aggr", "&x__sum_aggr", "x&&y__euclidean_distance", "x, y__sum_aggr", "m~1~2", "a~b~c", "x~1__sum_aggr~2", "~", "~~", "x~"]  # fmt: skip
     names = list(dict.fromkeys(names))
 
     # ---- suite: strings -------------------------------------------------------------------------
@@ -940,6 +940,37 @@ def run(ctx: Ctx) -> None:
             ctx.disagree(s, r, i, o)
     ctx.tag("unmodelled_skipped", "match/inputs/params", skipped)
 
+    # ---- suite: match_oracle - configurations outside the documented vocabulary / without a required key are not matched ----
+    for base in MODELLED:
+        cls = G.any_impl(base)
+        for _ in range(ctx.budget(6, 60)):
+            op = gen_op(G, rng, base)
+            good: Dict[str, Any] = dict(op_options(op, rng))
+            k = 2 if base == "GeoDistanceFeatureGroup" else 1
+            good["in_features"] = spell_leaf([gen_source(rng) for _ in range(k)], rng.choice(["str", "fset"]) if k == 1 else "fset")
+            variants_: List[Tuple[str, Dict[str, Any], bool]] = [("documented", good, True)]
+            for key in list(good):
+                missing = {k_: v for k_, v in good.items() if k_ != key}
+                variants_.append((f"missing:{key}", missing, False))
+            strict_keys = [key.value if isinstance(key, Enum) else key for key, spec in cls.PROPERTY_MAPPING.items()
+                           if isinstance(spec, dict) and spec.get("strict_validation") and (key.value if isinstance(key, Enum) else key) != "in_features"]  # fmt: skip
+            for key in strict_keys:
+                if key in good:
+                    bad = dict(good)
+                    bad[key] = rng.choice(["bogus_value", "SUM", "", -1, 0] if key == "window_size" else ["bogus_value", "SUM", "sum ", ("not_an_op",)])
+                    variants_.append((f"outside-vocabulary:{key}", bad, False))
+            for vname, d_, want in variants_:
+                nm = rng.choice(["placeholder", "f1", gen_source(rng)])
+                o = Options(context=d_) if rng.random() < 0.7 else Options(group=d_)
+                try:
+                    got: Any = cls.match_feature_group_criteria(nm, o)
+                except Exception as e:
+                    got = errclass(e)
+                ctx.case("match_oracle", {"group": base, "variant": vname, "options": enc(d_)}, True, variant=vname.split(":")[0], group=base)
+                if got is not want:
+                    ctx.violation("match_oracle", {"group": base, "name": nm, "variant": vname, "options": enc(d_)},
+                                  f"{base}.match_feature_group_criteria({nm!r}, {vname} options {d_}) = {got}, documented: {want}", got, want)
+
     # ---- suite: notations (function-level resolution walk) ---------------------------------------
     reqs, impls, metas = [], [], []
     for _ in range(ctx.budget(90, 1500)):
@@ -947,6 +978,8 @@ def run(ctx: Ctx) -> None:
         ch = gen_chain(G, rng, d, groups=[g for g in MODELLED if g != "TextCleaningFeatureGroup"])
         if rng.random() < 0.15:
             ch["ops"][-1] = gen_op(G, rng, "TextCleaningFeatureGroup")  # its operations live in options: only as the last (top-level) op
+            if len(ch["ops"]) == 1:
+                ch["src"] = ch["src"][:1]
         exp = norm_chain(expected_chain_json(ch))
         for vname, feat in notation_variants(ctx, G, ch, rng):
             impl = real_resolve(G, feat)
@@ -1122,8 +1155,8 @@ def notation_variants(ctx: Ctx, G: Groups, ch: Dict[str, Any], rng: Any, e2e: bo
     out: List[Tuple[str, Any]] = [("name", Feature(name, Options(context=dict(top_opts))) if top_opts else Feature(name))]
     if e2e:
         # frozenset({Feature}) nests cost ~50x per level in the engine (FSET_CLASS, probed separately)
-        leaf = rng.choice(["str", "fset", "feat", "list"] + (["fset_feat"] if d == 1 else []))
-        inner = rng.choice(["feat", "feat", "fset"]) if (d == 2 and leaf != "fset_feat") else "feat"
+        leaf = rng.choice(["str", "fset", "feat", "list"])
+        inner = "feat"
     else:
         leaf = rng.choice(["str", "fset", "feat", "list", "set", "str_sp", "fset_feat"])
         inner = rng.choice(["feat", "feat", "fset", "list"])
